@@ -524,6 +524,8 @@ PROPS["C18"] = {
         "Lace.C18.features_from_str_spec",
         "Lace.C18.features_from_str_err",
         "Lace.C18.split_comma_spec",
+        "Lace.C18.flag_irrelevant_cli",
+        "Lace.C18.flag_off_cli_rejects",
         "Lace.C02.execute_eq_isa",
         "Lace.C02.stack_off_stops",
     ],
